@@ -218,12 +218,64 @@ def fix_problem_rules(world, prog, rep, rule):
                        r in main.reach(main.after(n)) for r in runs) and _not_after_run(main, runs, n),
                    "ext2fs_mark_valid at %s precedes e2fsck_run and is not reachable after it except through label restart"
                    % n.where())
+    # the VALID bit is never resurrected: every store to fs->flags either can only clear bits, or-s in
+    # constants without EXT2_FLAG_VALID, preserves the current VALID bit, or is a wholesale restore whose
+    # save/restore window contains no call that may un-mark the fs valid
+    vbit = None
+    umv = prog.fn("ext2fs_unmark_valid")
+    for n in umv.events("S"):
+        for x in T.walk(n.ev.get("rhs") or {}):
+            if x.get("m") == "EXT2_FLAG_VALID":
+                vbit = x.get("c")
+    if not vbit:
+        raise Broken("EXT2_FLAG_VALID value not found in ext2fs_unmark_valid")
+    may_unmark = prog.may(lambda f, n: is_call(n, "ext2fs_unmark_valid"))
+    n_st = 0
     for fn in prog.functions():
-        if fn.file.startswith("e2fsck/") and fn.name != "main":
-            for n in fn.events("S"):
-                lf = T.last_field(n.ev["lhs"])
-                if lf == ("struct_ext2_filsys", "flags") and store_sets_bits(n, "EXT2_FLAG_VALID"):
-                    rep.ob(rule, site(fn, "sets EXT2_FLAG_VALID"), False, "a repair routine re-marks the fs valid at %s" % n.where())
+        for n in fn.events("S"):
+            if T.last_field(n.ev["lhs"]) != ("struct_ext2_filsys", "flags"):
+                continue
+            n_st += 1
+            o = n.ev["o"]
+            rhs = n.ev.get("rhs") or {}
+            if o == "&=":
+                rep.examined()
+                continue
+            if o == "|=":
+                c = T.const(rhs)
+                ok = (c is not None and not (c & vbit)) or fn.name == "ext2fs_mark_valid" or \
+                    (c is None and "EXT2_FLAG_VALID" not in T.macros(rhs) and T.path(rhs) in ("tail_flags",))
+                rep.ob(rule, site(fn, "or-ing into fs->flags leaves VALID alone#%d" % _ordn(fn, n)), ok,
+                       "`%s`" % n.text()[:60])
+                continue
+            if o != "=":
+                rep.examined()
+                continue
+            preserves = False
+            for x in T.walk(rhs):
+                bt = T.bits_test(x) if x.get("k") == "b" and x.get("o") == "&" else None
+                if bt and T.last_field(bt[0]) == ("struct_ext2_filsys", "flags") and (bt[1] & vbit):
+                    preserves = True
+            if preserves:
+                rep.ob(rule, site(fn, "restore of fs->flags keeps the current VALID bit#%d" % _ordn(fn, n)), True,
+                       "`%s` takes the VALID bit from the current value" % n.text()[:70])
+                continue
+            # wholesale store: no un-marking call may precede it in this function
+            window = []
+            for c in fn.call_nodes():
+                if n in fn.reach(fn.after(c)):
+                    if is_call(c, "ext2fs_unmark_valid") or any(g.key in may_unmark for g in prog.callees(fn, c.ev["x"])):
+                        window.append(c)
+            rep.ob(rule, site(fn, "wholesale store to fs->flags cannot resurrect VALID#%d" % _ordn(fn, n)), not window,
+                   "`%s` overwrites every flag; calls before it that may reach ext2fs_unmark_valid: %s" %
+                   (n.text()[:50], [(w.line, w.text()[:40]) for w in window[:3]]))
+    rep.floor("%s stores to fs->flags" % rule, n_st, 30)
+
+
+def _ordn(fn, n):
+    l = sorted([x for x in fn.events("S") if T.last_field(x.ev["lhs"]) == ("struct_ext2_filsys", "flags")],
+               key=lambda x: (x.line, x.bid, x.idx))
+    return l.index(n)
 
 
 def _via_restart(main, r, n):
